@@ -254,14 +254,15 @@ class _R:
 
 
 def kcenters_job(N, mode, k=None, warm=0, tri=False, entry='function', shortcut=None,
-                 approx=False, props=('C01', 'C02')):
+                 approx=False, props=('C01', 'C02'), warm_outside=False):
     """mode: 'n' (n_clusters only), 'r' (radius only), 'both', 'n-None' (dist_cutoff=None),
     'r-None' (n_clusters=None).  warm = number of initial centers (distinct frames, symbolic).
     shortcut: None = plain run only; 'compare' = run with and without the triangle shortcut."""
     kc, km, hy, cu, ops = mods()
 
     def path(ctx):
-        M = Metric(ctx, N, triangle=tri or approx or shortcut is not None)
+        # warm_outside: the initial centers are points that are NOT frames of the data set (tokens N, N+1, ...)
+        M = Metric(ctx, N + (warm if warm_outside else 0), triangle=tri or approx or shortcut is not None)
         X = SArr.from_typed(np.arange(N))
         X0 = X.copy()
         kwargs = {}
@@ -279,7 +280,17 @@ def kcenters_job(N, mode, k=None, warm=0, tri=False, entry='function', shortcut=
         if mode == 'r-None':
             kwargs['n_clusters'] = None
         init = None
-        if warm:
+        if warm and warm_outside:
+            init = [N + t for t in range(warm)]
+            kwargs['init_centers'] = list(init)
+            # assumption of these jobs: every initial center attracts at least one frame (an initial center without any frame
+            # has no center index at all on this code base: find_cluster_centers only reports non-empty labels)
+            for t in init:
+                alts = []
+                for i in range(N):
+                    alts.append(z3.And(*[core.to_z3_bool(M.d(i, t) < M.d(i, t2)) for t2 in init if t2 != t]) if warm > 1 else z3.BoolVal(True))
+                ctx.add(z3.Or(*alts))
+        elif warm:
             init = [core.fresh_int('init', 0, N - 1) for _ in range(warm)]
             for a, b in itertools.combinations(init, 2):
                 ctx.add(a.t != b.t)
@@ -337,7 +348,7 @@ def kcenters_job(N, mode, k=None, warm=0, tri=False, entry='function', shortcut=
                 kw['n_clusters'] = kwargs['n_clusters']
             ini = None
             if init0:
-                ini = [int(ev(model, v)) for v in init0]
+                ini = [int(ev(model, v)) if isinstance(v, SVal) else int(v) for v in init0]
                 kw['init_centers'] = [np.int64(v) for v in ini]
             inputs = {'N': N, 'D': [[float(x) for x in row] for row in T], 'dist_cutoff': float(cut) if cut is not None else None,
                       'n_clusters': kwargs.get('n_clusters', 'default'), 'init_centers': ini, 'entry': entry,
@@ -367,7 +378,8 @@ def kcenters_job(N, mode, k=None, warm=0, tri=False, entry='function', shortcut=
             if 'C01' in props:
                 bad += run_oracle(oracle_consistent(N, _R(co), dfun))
             if 'C02' in props:
-                g, _ = oracle_greedy(N, co['center_indices'], co['distances'], k_req, float(cut) if cut is not None else 0.0,
+                cc_ = (list(ini) + list(co['center_indices'][warm:])) if warm_outside else co['center_indices']
+                g, _ = oracle_greedy(N, cc_, co['distances'], k_req, float(cut) if cut is not None else 0.0,
                                      dfun, warm, cold=not warm)
                 bad += run_oracle(g)
             if not np.array_equal(Xc, np.arange(N)):
@@ -399,7 +411,8 @@ def kcenters_job(N, mode, k=None, warm=0, tri=False, entry='function', shortcut=
             obs += oracle_consistent(N, res, M.d)
         r = None
         if 'C02' in props:
-            g, r = oracle_greedy(N, list(res.center_indices), cells(res.distances), k_req, cutoff, M.d, warm, cold=not warm)
+            cc_ = (list(init0) + list(res.center_indices)[warm:]) if warm_outside else list(res.center_indices)
+            g, r = oracle_greedy(N, cc_, cells(res.distances), k_req, cutoff, M.d, warm, cold=not warm)
             obs += g
         obs.append(('input-data-unmodified', conj([a == b for a, b in zip(X.cells(), X0.cells())])))
         if init0:
@@ -627,6 +640,12 @@ def kmedoids_job(N, k, entry='pam', sweeps=1, warm=None, proposals=False, tri=Fa
                     newc = sum(x * x for x in co['distances'])
                     if newc > oldc * (1 + 1e-12) + 1e-15:
                         bad.append('cost-increased')
+                    try:
+                        truec = sum(dfun(i, co['center_indices'][co['assignments'][i]]) ** 2 for i in range(N))
+                        if truec > oldc * (1 + 1e-9) + 1e-12:
+                            bad.append('true-cost-of-the-returned-clustering-increased')
+                    except (IndexError, TypeError):
+                        pass
                 if entry in ('hybrid', 'KHybrid'):
                     with core.concrete_mode():
                         rk = kc.kcenters(np.arange(N), metric, **kw2)
@@ -679,6 +698,13 @@ def kmedoids_job(N, k, entry='pam', sweeps=1, warm=None, proposals=False, tri=Fa
                 obs.append(('number-of-clusters-kept', len(res.center_indices) == k))
             if entry == 'pam':
                 obs.append(('cost-never-increases', cost_of(cells(res.distances)) <= cost_of(pre[2])))
+                if len(res.center_indices) == k:
+                    # the cost the property talks about: frames against the centers their labels point to, not the bookkeeping
+                    labs, cis = cells(res.assignments), list(res.center_indices)
+                    inr = conj([(l >= 0) & (l < k) for l in labs])
+                    true_d = [M.d(i, sel(cis, labs[i])) for i in range(N)]
+                    obs.append(('true-cost-of-the-returned-clustering-never-increases',
+                                core.sor(core.snot(inr), cost_of(true_d) <= cost_of(pre[2]))))
             if res_kc is not None:
                 obs.append(('hybrid-cost-at-most-kcenters-cost',
                             cost_of(cells(res.distances)) <= cost_of(cells(res_kc.distances))))
